@@ -161,7 +161,7 @@ def check(tier: str) -> int:
     chk.assumptions += ["a plural without a count (t) is a malformed use and is not generated; computed contexts/plurals cannot be reported",
                         "catalog = the harness's recording Translations double passed as the `translations` variable",
                         "TLC, Json/IOUtils modules, CPython"]
-    runs = [("tags", 1), ("filters", 1), ("comments", 4), ("mixed", 2 if tier == "quick" else 3), ("breaks", 3)]
+    runs = [("tags", 1), ("filters", 1), ("comments", 4), ("mixed", 2 if tier == "quick" else 3), ("breaks", 3), ("markers", 2)]
     for variant, top in runs:
         r = tlc.run("LiquidMsg", tlc.cfg_text(constants={"MaxTop": str(top), "Focus": f'"msg-{variant}"', "Variant": f'"{variant}"'},
                                               invariants=["Covered", "CommentsOnce", "Export"]), tag=f"msg-{variant}", timeout=3000)
